@@ -107,6 +107,8 @@ func (e *Engine) clauseCtx(st *State, fr *Frame, extra map[string]SV) *SpecCtx {
 					if _, dup := fr.Cells[fv.Name()]; !dup {
 						fr.Cells[fv.Name()] = a.Cell
 					}
+					// fv_<name> always denotes the captured variable, even when a local shadows it
+					fr.Cells["fv_"+fv.Name()] = a.Cell
 				} else if t, ok := fr.Binds[i].(T); ok {
 					// pointer to a struct local of the parent
 					c.vars[fv.Name()] = SV{V: t, T: fv.Type()}
